@@ -318,7 +318,7 @@ def run_extraction(ex: Extraction, report):
             rec["rewrites"].append({"rule": "let-chain desugaring: `if let P = E && C {B}` -> `if let P = E { if C {B} }` (only without else)", "count": n})
         elif kind == "desugar_option_closures":
             n = _desugar_option_closures(t)
-            rec["rewrites"].append({"rule": "Option combinator desugaring: `E.is_some_and(|P| B)` -> `(match E { Some(P) => { B }, None => false })`, `E.is_none_or(|P| B)` -> `(match E { Some(P) => { B }, None => true })`", "count": n})
+            rec["rewrites"].append({"rule": "Option combinator desugaring: `E.is_some_and(|P| B)` -> `(match E { Some(P) => { B }, None => false })`, `E.is_none_or(|P| B)` -> `(match E { Some(P) => { B }, None => true })`, `E.map(|P| B).unwrap_or(D)` -> `(match E { Some(P) => { B }, None => D })`", "count": n})
         elif kind in ("sub", "subopt"):
             lhs, rhs = payload.split("=>", 1)
             _, p = parse_args(lhs.strip())
@@ -562,15 +562,19 @@ def _receiver_start(mk, dot):
 def _desugar_option_closures(t: SrcText):
     """`RECV.is_some_and(|PAT| BODY)` -> `(match RECV { Some(PAT) => { BODY }, None => false })` (and is_none_or -> true)."""
     n = 0
+    skip_from = 0
     while True:
         mk = mask(t.s)
-        m = re.compile(r"\.\s*(is_some_and|is_none_or)\s*\(").search(mk)
+        m = re.compile(r"\.\s*(is_some_and|is_none_or|map)\s*\(").search(mk, skip_from)
         if not m:
             return n
         op = m.end() - 1
         cp = match_delim(mk, op)
         inner = t.s[op + 1:cp]
         mi = re.match(r"\s*\|([^|:]*)\|\s*", inner)
+        if not mi and m.group(1) == "map":
+            skip_from = m.end()
+            continue
         if not mi:
             raise Unsupported("Option combinator with a non-closure or typed-parameter argument: %r" % inner[:40])
         pat = mi.group(1).strip()
@@ -578,7 +582,17 @@ def _desugar_option_closures(t: SrcText):
         rs = _receiver_start(mk, m.start())
         recv = t.s[rs:m.start()]
         dflt = "false" if m.group(1) == "is_some_and" else "true"
-        t.replace(rs, cp + 1, "(match %s { Some(%s) => { %s }, None => %s })" % (recv, pat, body, dflt), t.o[m.start()])
+        end = cp + 1
+        if m.group(1) == "map":
+            mu = re.compile(r"\s*\.\s*unwrap_or\s*\(").match(mk, cp + 1)
+            if not mu:
+                skip_from = m.end()
+                continue
+            uo = mu.end() - 1
+            uc = match_delim(mk, uo)
+            dflt = t.s[uo + 1:uc].strip()
+            end = uc + 1
+        t.replace(rs, end, "(match %s { Some(%s) => { %s }, None => %s })" % (recv, pat, body, dflt), t.o[m.start()])
         n += 1
 
 
